@@ -430,6 +430,7 @@ func funcDeclName(pkgRel string, fd *ast.FuncDecl) string {
 func c15(c *core.Check) {
 	p := c.Prog
 	c15MapReadWhileRewritten(c)
+	c15TokenListsNotAppendedTo(c)
 	c.Explain = "Structural necessary conditions of deterministic, non-interfering rendering, decided on SSA and AST: (R1) no write into memory that outlives one computation — the declared value handed to a computer function, values read back from a style, anything reached from a package-level variable — outside package initialisation, except mutex-guarded memo caches (field-sensitive taint with strong updates on local copies and callee summaries to a fixpoint); (R2) every iteration over a map is order-insensitive by construction (keyed stores, existence tests, commutative accumulation, append-then-sort) or is a named site whose insensitivity was confirmed by reading; (R3) no call to a source of nondeterminism and no goroutine or channel operation in the module; (R4) no direct store to a package-level variable outside init. Races inside the text-shaping dependencies and objects supplied by the caller are not decided. Also decided: (R5) re-evaluation closures (tree.ParseFunc) capture slices and maps as fresh copies only."
 	c.Assume = []string{"memo caches return a value that is a function of the key", "dependencies outside the module (text shaping, image decoding) are deterministic"}
 
